@@ -415,6 +415,16 @@ func (d *Decoder) Repair(checkParity bool) ([]string, error) {
 		}
 	}
 
+	// d.fileData (and therefore shards) has an element only for
+	// entries that are saved in the volume set, so index those
+	// the same way.
+	var savedEntries []fileEntry
+	for _, entry := range d.indexVolume.entries {
+		if entry.header.Status.savedInVolumeSet() {
+			savedEntries = append(savedEntries, entry)
+		}
+	}
+
 	var repairedPaths []string
 
 	for i, data := range d.fileData {
@@ -422,7 +432,7 @@ func (d *Decoder) Repair(checkParity bool) ([]string, error) {
 			continue
 		}
 
-		entry := d.indexVolume.entries[i]
+		entry := savedEntries[i]
 		data = shards[i][:entry.header.FileBytes]
 		if sixteenKHash(data) != entry.header.SixteenKHash {
 			return repairedPaths, errors.New("hash mismatch (16k) in reconstructed data")
